@@ -637,4 +637,592 @@ theorem Inv_runSync (h : List (Owner × Snapshot)) : ∀ (s : TK) (L : Owner →
     · simp only [ho, if_false]
       exact Inv_sync hI p.1 ho p.2
 
+/-! ## the cache layer -/
+
+/-- the owner map the cache contents denote: every cached entry under its key, unless it lists no address
+or carries a zero bitmap. -/
+def liveOfCache (C : List (String × Entry)) : Owner → Option Snapshot :=
+  fun o => if o = "" then none else
+    match alLookup o C with
+    | some e => if e.snap.effective then some e.snap else none
+    | none => none
+
+structure CInv (σ : CState) : Prop where
+  ex : ∃ L, Inv σ.tk.t σ.tk.K L ∧ (σ.staleApplied = false → L = liveOfCache σ.cache)
+  noEmptyKey : alLookup "" σ.cache = none
+  nodup : NoDupKeys σ.cache
+
+theorem Inv_TKsync {s : TK} {L : Owner → Option Snapshot} (hI : Inv s.t s.K L) (o : Owner) (snap : Snapshot) :
+    Inv (s.sync o snap).t (s.sync o snap).K (if o = "" then L else setOwner L o snap) := by
+  unfold TK.sync syncOwner
+  by_cases ho : o = ""
+  · simp only [ho, if_true]; exact hI
+  · simp only [ho, if_false]; exact Inv_sync hI o ho snap
+
+theorem liveOfCache_erase (C : List (String × Entry)) (key : String) :
+    liveOfCache (alErase key C) = setOwner (liveOfCache C) key Snapshot.empty := by
+  funext x
+  unfold liveOfCache setOwner
+  by_cases hx : x = key
+  · subst hx
+    simp [alLookup_erase, Snapshot.empty, Snapshot.effective]
+  · simp [alLookup_erase, hx]
+
+theorem liveOfCache_insert (C : List (String × Entry)) (key : String) (e : Entry) (hk : key ≠ "") :
+    liveOfCache (alInsert key e C) = setOwner (liveOfCache C) key e.snap := by
+  funext x
+  unfold liveOfCache setOwner
+  by_cases hx : x = key
+  · subst hx
+    simp [alLookup_insert, hk]
+  · simp [alLookup_insert, hx]
+
+/-- rewriting an entry's bookkeeping fields does not change what the cache denotes. -/
+theorem liveOfCache_insert_same (C : List (String × Entry)) (key : String) (e e' : Entry)
+    (h : alLookup key C = some e) (hs : e'.snap = e.snap) :
+    liveOfCache (alInsert key e' C) = liveOfCache C := by
+  funext x
+  unfold liveOfCache
+  by_cases hx : x = key
+  · subst hx
+    simp [alLookup_insert, h, hs]
+  · simp [alLookup_insert, hx]
+
+theorem setOwner_self (L : Owner → Option Snapshot) (o : Owner) (s : Snapshot)
+    (h : L o = if s.effective then some s else none) : setOwner L o s = L := by
+  funext x
+  unfold setOwner
+  by_cases hx : x = o
+  · subst hx; simp [h]
+  · simp [hx]
+
+theorem CInv_evict {σ : CState} (h : CInv σ) (key : String) :
+    CInv (σ.evict key) ∧ (σ.evict key).staleApplied = σ.staleApplied := by
+  unfold CState.evict
+  by_cases hk : key = ""
+  · simp only [hk, if_true]; exact ⟨h, trivial⟩
+  · simp only [hk, if_false]
+    cases hl : alLookup key σ.cache with
+    | none => exact ⟨h, rfl⟩
+    | some e =>
+      refine ⟨⟨?_, ?_, ?_⟩, rfl⟩
+      · obtain ⟨L, hI, hL⟩ := h.ex
+        refine ⟨setOwner L key Snapshot.empty, ?_, ?_⟩
+        · have := Inv_TKsync hI key Snapshot.empty
+          simp only [hk, if_false] at this
+          exact this
+        · intro hs
+          simp only [liveOfCache_erase, hL hs]
+      · simp only [alLookup_erase]
+        have : ¬ ("" = key) := fun e => hk e.symm
+        simp only [this, if_false]
+        exact h.noEmptyKey
+      · exact NoDupKeys_erase key h.nodup
+
+theorem CInv_foldl_evict (f : String → Bool) (order : List String) : ∀ {σ : CState}, CInv σ →
+    CInv (order.foldl (fun σ k => if f k then σ.evict k else σ) σ) ∧
+      (order.foldl (fun σ k => if f k then σ.evict k else σ) σ).staleApplied = σ.staleApplied := by
+  induction order with
+  | nil => intro σ h; exact ⟨h, rfl⟩
+  | cons k order ih =>
+    intro σ h
+    simp only [List.foldl_cons]
+    by_cases hf : f k = true
+    · simp only [hf, if_true]
+      have h1 := CInv_evict h k
+      have h2 := ih h1.1
+      exact ⟨h2.1, h2.2.trans h1.2⟩
+    · simp only [hf, Bool.false_eq_true, if_false]
+      exact ih h
+
+theorem CInv_update_fields {σ : CState} (h : CInv σ) (key : String) (e e' : Entry)
+    (hl : alLookup key σ.cache = some e) (hs : e'.snap = e.snap) (pending : List Task) :
+    CInv { σ with cache := alInsert key e' σ.cache, pending := pending } := by
+  have hk : key ≠ "" := by
+    intro e0; subst e0; rw [h.noEmptyKey] at hl; cases hl
+  refine ⟨?_, ?_, NoDupKeys_insert _ _ h.nodup⟩
+  · obtain ⟨L, hI, hL⟩ := h.ex
+    refine ⟨L, hI, ?_⟩
+    intro hst
+    simp only [liveOfCache_insert_same σ.cache key e e' hl hs]
+    exact hL hst
+  · simp only [alLookup_insert]
+    have : ¬ ("" = key) := fun e => hk e.symm
+    simp only [this, if_false]
+    exact h.noEmptyKey
+
+theorem CInv_step {σ : CState} (h : CInv σ) (op : COp) :
+    CInv (cstep σ op) ∧ ((cstep σ op).staleApplied = false → σ.staleApplied = false) := by
+  cases op with
+  | put key ttl fixedTtl bitmap ans =>
+    simp only [cstep]
+    by_cases hk : key = ""
+    · simp only [hk, if_true]; exact ⟨h, id⟩
+    · simp only [hk, if_false]
+      refine ⟨⟨?_, ?_, NoDupKeys_insert _ _ h.nodup⟩, id⟩
+      · obtain ⟨L, hI, hL⟩ := h.ex
+        refine ⟨setOwner L key ⟨bitmap, ansIps ans⟩, ?_, ?_⟩
+        · have := Inv_TKsync hI key ⟨bitmap, ansIps ans⟩
+          simp only [hk, if_false] at this
+          exact this
+        · intro hs
+          simp only [liveOfCache_insert _ _ _ hk, hL hs]
+          rfl
+      · simp only [alLookup_insert]
+        have : ¬ ("" = key) := fun e => hk e.symm
+        simp only [this, if_false]
+        exact h.noEmptyKey
+  | del key =>
+    simp only [cstep]
+    have := CInv_evict h key
+    exact ⟨this.1, fun hs => by rw [← this.2]; exact hs⟩
+  | fam base order =>
+    simp only [cstep]
+    by_cases hb : base = ""
+    · simp only [hb, if_true]; exact ⟨h, id⟩
+    · simp only [hb, if_false]
+      have := CInv_foldl_evict (fun k => decide (baseKey k = base)) order h
+      simp only [decide_eq_true_eq] at this
+      exact ⟨this.1, fun hs => by rw [← this.2]; exact hs⟩
+  | look key ignoreFixed =>
+    simp only [cstep]
+    cases hl : alLookup key σ.cache with
+    | none => exact ⟨h, id⟩
+    | some e =>
+      simp only
+      by_cases hd : (if ignoreFixed = true then e.origDeadline else e.deadline) ≤ σ.now
+      · simp only [hd, if_true]
+        have := CInv_evict h key
+        exact ⟨this.1, fun hs => by rw [← this.2]; exact hs⟩
+      · simp only [hd, if_false]
+        unfold CState.trigger
+        by_cases hn : needsUpdate e σ.now = true
+        · simp only [hn, if_true]
+          exact ⟨CInv_update_fields h key e { e with lastSync := σ.now } hl rfl _, id⟩
+        · simp only [hn, Bool.false_eq_true, if_false]
+          exact ⟨h, id⟩
+  | jan order =>
+    simp only [cstep]
+    have := CInv_foldl_evict (fun _ => true) order h
+    simp only [if_true] at this
+    exact ⟨this.1, fun hs => by rw [← this.2]; exact hs⟩
+  | sleep ns =>
+    simp only [cstep]
+    exact ⟨⟨h.ex, h.noEmptyKey, h.nodup⟩, id⟩
+  | touch key =>
+    simp only [cstep]
+    cases hl : alLookup key σ.cache with
+    | none => exact ⟨h, id⟩
+    | some e =>
+      have := CInv_update_fields h key e { e with lastAccess := σ.now } hl rfl σ.pending
+      exact ⟨this, id⟩
+  | work =>
+    simp only [cstep]
+    cases hp : σ.pending with
+    | nil => exact ⟨h, id⟩
+    | cons t rest =>
+      simp only
+      -- the cache after MarkBpfUpdated on the task's object
+      have hcache : liveOfCache (markUpdated σ.cache t) = liveOfCache σ.cache ∧
+          alLookup "" (markUpdated σ.cache t) = none ∧ NoDupKeys (markUpdated σ.cache t) := by
+        unfold markUpdated
+        cases hl : alLookup t.key σ.cache with
+        | none => exact ⟨rfl, h.noEmptyKey, h.nodup⟩
+        | some e =>
+          simp only
+          by_cases hid : e.id = t.id
+          · simp only [hid, if_true]
+            have hk : t.key ≠ "" := by
+              intro e0; rw [e0, h.noEmptyKey] at hl; cases hl
+            have hne : ¬ ("" = t.key) := fun e => hk e.symm
+            refine ⟨liveOfCache_insert_same _ _ e _ hl rfl, ?_, NoDupKeys_insert _ _ h.nodup⟩
+            simp only [alLookup_insert, hne, if_false]
+            exact h.noEmptyKey
+          · simp only [hid, if_false]
+            exact ⟨trivial, h.noEmptyKey, h.nodup⟩
+      obtain ⟨hlive, hne, hnd⟩ := hcache
+      refine ⟨⟨?_, hne, hnd⟩, ?_⟩
+      · obtain ⟨L, hI, hL⟩ := h.ex
+        refine ⟨_, Inv_TKsync hI t.key t.snap, ?_⟩
+        intro hs
+        simp only [Bool.or_eq_false_iff, Bool.not_eq_false'] at hs
+        obtain ⟨hs1, hfresh⟩ := hs
+        rw [hlive]
+        have hLc := hL hs1
+        by_cases hk : t.key = ""
+        · simp only [hk, if_true]; exact hLc
+        · simp only [hk, if_false]
+          rw [setOwner_self L t.key t.snap, hLc]
+          rw [hLc]
+          unfold liveOfCache
+          simp only [hk, if_false]
+          unfold taskFresh at hfresh
+          cases hl : alLookup t.key σ.cache with
+          | none => rw [hl] at hfresh; simp at hfresh
+          | some e =>
+            rw [hl] at hfresh
+            simp only [decide_eq_true_eq] at hfresh
+            simp only [hfresh]
+      · intro hs
+        simp only [Bool.or_eq_false_iff] at hs
+        exact hs.1
+
+theorem CInv_init (cfg : Cfg) : CInv (CState.init cfg) :=
+  ⟨⟨fun _ => none, Inv_empty, fun _ => by funext x; simp [liveOfCache, CState.init, alLookup]⟩, rfl, NoDupKeys_nil⟩
+
+theorem CInv_run (ops : List COp) : ∀ {σ : CState}, CInv σ →
+    CInv (crun σ ops) ∧ ((crun σ ops).staleApplied = false → σ.staleApplied = false) := by
+  induction ops with
+  | nil => intro σ h; exact ⟨h, id⟩
+  | cons op ops ih =>
+    intro σ h
+    unfold crun
+    simp only [List.foldl_cons]
+    have h1 := CInv_step h op
+    have h2 := ih h1.1
+    exact ⟨h2.1, fun hs => h1.2 (h2.2 hs)⟩
+
+/-! ## consequences for the cache layer -/
+
+theorem live_iff_cached {C : List (String × Entry)} (hne : alLookup "" C = none) (ip : Ip) (i : Nat) :
+    (∃ o s, liveOfCache C o = some s ∧ ip ∈ s.ips ∧ s.bitmap.testBit i = true) ↔
+      ∃ key e, alLookup key C = some e ∧ ip ∈ ansIps e.ans ∧ e.bitmap.testBit i = true := by
+  constructor
+  · rintro ⟨o, s, hL, hm, hb⟩
+    unfold liveOfCache at hL
+    by_cases ho : o = ""
+    · simp [ho] at hL
+    · simp only [ho, if_false] at hL
+      cases hl : alLookup o C with
+      | none => simp [hl] at hL
+      | some e =>
+        simp only [hl] at hL
+        by_cases he : e.snap.effective = true
+        · simp only [he, if_true, Option.some.injEq] at hL
+          subst hL
+          exact ⟨o, e, hl, hm, hb⟩
+        · simp [he] at hL
+  · rintro ⟨key, e, hl, hm, hb⟩
+    refine ⟨key, e.snap, ?_, hm, hb⟩
+    have hk : key ≠ "" := by
+      intro e0; subst e0; rw [hne] at hl; cases hl
+    unfold liveOfCache
+    simp only [hk, if_false, hl]
+    have : e.snap.effective = true := by
+      unfold Snapshot.effective Entry.snap
+      simp only [Bool.and_eq_true, Bool.not_eq_true', bne_iff_ne, ne_eq]
+      refine ⟨?_, ne_zero_of_testBit hb⟩
+      cases hips : ansIps e.ans with
+      | nil => rw [hips] at hm; cases hm
+      | cons _ _ => rfl
+    simp [this]
+
+theorem CInv.cache_bit {σ : CState} (h : CInv σ) (hs : σ.staleApplied = false) (ip : Ip) (i : Nat) :
+    (kernelVal σ.tk.K ip).testBit i = true ↔
+      ∃ key e, alLookup key σ.cache = some e ∧ ip ∈ ansIps e.ans ∧ e.bitmap.testBit i = true := by
+  obtain ⟨L, hI, hL⟩ := h.ex
+  rw [hI.kernel_bit ip i, hL hs]
+  exact live_iff_cached h.noEmptyKey ip i
+
+theorem CInv.cache_no_orphan {σ : CState} (h : CInv σ) (hs : σ.staleApplied = false) (ip : Ip) (v : Bitmap)
+    (hv : alLookup ip σ.tk.K = some v) :
+    v ≠ 0 ∧ ∃ key e, alLookup key σ.cache = some e ∧ ip ∈ ansIps e.ans ∧ e.bitmap ≠ 0 := by
+  obtain ⟨L, hI, hL⟩ := h.ex
+  obtain ⟨hv0, o, s, hLo, hm, hb⟩ := hI.no_orphan ip v hv
+  refine ⟨hv0, ?_⟩
+  rw [hL hs] at hLo
+  unfold liveOfCache at hLo
+  by_cases ho : o = ""
+  · simp [ho] at hLo
+  · simp only [ho, if_false] at hLo
+    cases hl : alLookup o σ.cache with
+    | none => simp [hl] at hLo
+    | some e =>
+      simp only [hl] at hLo
+      by_cases he : e.snap.effective = true
+      · simp only [he, if_true, Option.some.injEq] at hLo
+        subst hLo
+        exact ⟨o, e, hl, hm, hb⟩
+      · simp [he] at hLo
+
+/-- the table always mirrors the tracker's own owner snapshots, stale refresh or not. -/
+theorem CInv.tracker_bit {σ : CState} (h : CInv σ) (ip : Ip) (i : Nat) :
+    (kernelVal σ.tk.K ip).testBit i = true ↔
+      ∃ o s, alLookup o σ.tk.t.owners = some s ∧ ip ∈ s.ips ∧ s.bitmap.testBit i = true := by
+  obtain ⟨L, hI, _⟩ := h.ex
+  rw [hI.kernel_bit ip i]
+  simp only [hI.owners]
+
+theorem testBit_specOr {C : List (String × Entry)} (hnd : NoDupKeys C) (ip : Ip) (i : Nat) :
+    (specOr C ip).testBit i = true ↔
+      ∃ key e, alLookup key C = some e ∧ ip ∈ ansIps e.ans ∧ e.bitmap.testBit i = true := by
+  unfold specOr
+  simp only [testBit_orAll, List.any_map, List.any_eq_true, Function.comp, List.mem_filter]
+  constructor
+  · rintro ⟨⟨k, e⟩, ⟨hm, hc⟩, hb⟩
+    exact ⟨k, e, alLookup_of_mem hnd hm, by simpa using hc, hb⟩
+  · rintro ⟨k, e, hl, hm, hb⟩
+    exact ⟨(k, e), ⟨mem_of_alLookup hl, by simpa using hm⟩, hb⟩
+
+theorem CInv.kernel_eq_spec {σ : CState} (h : CInv σ) (hs : σ.staleApplied = false) (ip : Ip) :
+    kernelVal σ.tk.K ip = specOr σ.cache ip := by
+  apply Nat.eq_of_testBit_eq
+  intro i
+  rw [Bool.eq_iff_iff, h.cache_bit hs ip i, testBit_specOr h.nodup ip i]
+
+/-! ## minimal batches, idempotent re-sync -/
+
+theorem ups_minimal {t : Tracker} {K : Kernel} {L : Owner → Option Snapshot} (hI : Inv t K L)
+    (o : Owner) (s : Snapshot) (aff : List Ip) (p : Ip × Bitmap) (hp : p ∈ (emitFor t o s aff).ups) :
+    alLookup p.1 K ≠ some p.2 := by
+  unfold emitFor at hp
+  simp only [List.mem_filterMap] at hp
+  obtain ⟨k, _, hk⟩ := hp
+  unfold updOf at hk
+  have hkern := hI.kern k
+  cases hc : classify t k o s with
+  | del => simp [hc] at hk
+  | keep => simp [hc] at hk
+  | upd v =>
+    simp only [hc, Option.some.injEq] at hk
+    subst hk
+    simp only
+    unfold classify at hc
+    cases ha : alLookup k t.ips with
+    | none =>
+      rw [hkern, ha]; simp
+    | some cur =>
+      rw [ha] at hc
+      rw [hkern, ha]
+      simp only [Option.map_some, ne_eq, Option.some.injEq]
+      cases hd : (desired t k o s).2 with
+      | false => simp [hd] at hc
+      | true =>
+        simp only [hd] at hc
+        by_cases hne : cur.merged ≠ (desired t k o s).1
+        · rw [if_pos hne] at hc
+          injection hc with hc
+          rw [← hc]; exact hne
+        · rw [if_neg hne] at hc
+          cases hc
+
+theorem dels_minimal {t : Tracker} {K : Kernel} {L : Owner → Option Snapshot} (hI : Inv t K L)
+    (o : Owner) (s : Snapshot) (aff : List Ip) (k : Ip) (hk : k ∈ (emitFor t o s aff).dels) :
+    alLookup k K ≠ none := by
+  unfold emitFor at hk
+  simp only [List.mem_filter] at hk
+  obtain ⟨_, hd⟩ := hk
+  unfold isDel at hd
+  have hkern := hI.kern k
+  cases hc : classify t k o s with
+  | upd v => simp [hc] at hd
+  | keep => simp [hc] at hd
+  | del =>
+    unfold classify at hc
+    cases ha : alLookup k t.ips with
+    | none =>
+      rw [ha] at hc
+      cases hd2 : (desired t k o s).2 <;> simp [hd2] at hc
+    | some cur =>
+      rw [hkern, ha]; simp
+
+/-- re-syncing an owner with the snapshot the tracker already holds for it sends nothing to the kernel. -/
+theorem resync_emits_nothing {t : Tracker} {K : Kernel} {L : Owner → Option Snapshot} (hI : Inv t K L)
+    (o : Owner) (ho : o ≠ "") (s : Snapshot) (hs : L o = some s) :
+    (emitFor t o s (affected t o s)).ups = [] ∧ (emitFor t o s (affected t o s)).dels = [] := by
+  have hI' := Inv_sync hI o ho s
+  have hLL : setOwner L o s = L := setOwner_self L o s (by rw [hs, hI.eff o s hs]; rfl)
+  rw [hLL] at hI'
+  -- both tables denote the same owner map, so they read the same everywhere
+  have hval : ∀ k, kernelVal (applyEmit K (emitFor t o s (affected t o s))) k = kernelVal K k := by
+    intro k
+    apply Nat.eq_of_testBit_eq
+    intro i
+    rw [Bool.eq_iff_iff, hI'.kernel_bit k i, hI.kernel_bit k i]
+  constructor
+  · cases hu : (emitFor t o s (affected t o s)).ups with
+    | nil => rfl
+    | cons p rest =>
+      exfalso
+      have hp : p ∈ (emitFor t o s (affected t o s)).ups := by rw [hu]; simp
+      have hmin := ups_minimal hI o s _ p hp
+      -- after the batches the table holds p.2 at p.1
+      have hp' := hp
+      unfold emitFor at hp'
+      simp only [List.mem_filterMap] at hp'
+      obtain ⟨k, hk, hk2⟩ := hp'
+      unfold updOf at hk2
+      cases hc : classify t k o s with
+      | del => simp [hc] at hk2
+      | keep => simp [hc] at hk2
+      | upd v =>
+        simp only [hc, Option.some.injEq] at hk2
+        subst hk2
+        have hnew : alLookup k (applyEmit K (emitFor t o s (affected t o s))) = some v := by
+          rw [lookup_applyEmit]; simp [hk, kAfter, hc]
+        have h1 := hval k
+        unfold kernelVal at h1
+        rw [hnew] at h1
+        simp only at hmin
+        cases hold : alLookup k K with
+        | some w => rw [hold] at h1 hmin; simp only at h1; exact hmin (by rw [h1])
+        | none =>
+          rw [hold] at h1
+          simp only at h1
+          exact (hI'.no_orphan k v hnew).1 h1
+  · cases hd : (emitFor t o s (affected t o s)).dels with
+    | nil => rfl
+    | cons k rest =>
+      exfalso
+      have hk : k ∈ (emitFor t o s (affected t o s)).dels := by rw [hd]; simp
+      have hmin := dels_minimal hI o s _ k hk
+      have hk' := hk
+      unfold emitFor at hk'
+      simp only [List.mem_filter] at hk'
+      obtain ⟨hka, hkd⟩ := hk'
+      unfold isDel at hkd
+      cases hc : classify t k o s with
+      | upd v => simp [hc] at hkd
+      | keep => simp [hc] at hkd
+      | del =>
+        have hnew : alLookup k (applyEmit K (emitFor t o s (affected t o s))) = none := by
+          rw [lookup_applyEmit]; simp [hka, kAfter, hc]
+        have h1 := hval k
+        unfold kernelVal at h1
+        rw [hnew] at h1
+        cases hold : alLookup k K with
+        | none => exact hmin hold
+        | some w =>
+          rw [hold] at h1
+          simp only at h1
+          exact (hI.no_orphan k w hold).1 h1.symm
+
+/-! ## when is the hypothesis `staleApplied = false` guaranteed -/
+
+theorem evict_stale (σ : CState) (k : String) : (σ.evict k).staleApplied = σ.staleApplied := by
+  unfold CState.evict
+  by_cases hk : k = ""
+  · simp [hk]
+  · simp only [hk, if_false]
+    cases alLookup k σ.cache <;> rfl
+
+theorem evict_pending (σ : CState) (k : String) : (σ.evict k).pending = σ.pending := by
+  unfold CState.evict
+  by_cases hk : k = ""
+  · simp [hk]
+  · simp only [hk, if_false]
+    cases alLookup k σ.cache <;> rfl
+
+theorem foldl_evict_stale (f : String → Bool) (order : List String) : ∀ σ : CState,
+    (order.foldl (fun σ k => if f k then σ.evict k else σ) σ).staleApplied = σ.staleApplied := by
+  induction order with
+  | nil => intro σ; rfl
+  | cons k order ih =>
+    intro σ
+    simp only [List.foldl_cons]
+    by_cases hf : f k = true
+    · simp only [hf, if_true, ih, evict_stale]
+    · simp only [hf, Bool.false_eq_true, if_false, ih]
+
+theorem look_cases (σ : CState) (key : String) (ig : Bool) :
+    cstep σ (.look key ig) = σ ∨ cstep σ (.look key ig) = σ.evict key ∨
+    ∃ e, alLookup key σ.cache = some e ∧ cstep σ (.look key ig) =
+      { σ with cache := alInsert key { e with lastSync := σ.now } σ.cache,
+               pending := σ.pending ++ [⟨e.id, key, e.snap, σ.now⟩] } := by
+  simp only [cstep]
+  cases hl : alLookup key σ.cache with
+  | none => exact Or.inl rfl
+  | some e =>
+    simp only
+    by_cases hd : (if ig = true then e.origDeadline else e.deadline) ≤ σ.now
+    · simp only [hd, if_true]; exact Or.inr (Or.inl trivial)
+    · simp only [hd, if_false]
+      unfold CState.trigger
+      by_cases hn : needsUpdate e σ.now = true
+      · simp only [hn, if_true]; exact Or.inr (Or.inr ⟨e, rfl, rfl⟩)
+      · simp only [hn, Bool.false_eq_true, if_false]; exact Or.inl trivial
+
+theorem cstep_stale_of_not_work (σ : CState) (op : COp) (h : op ≠ COp.work) :
+    (cstep σ op).staleApplied = σ.staleApplied := by
+  cases op with
+  | work => exact absurd rfl h
+  | put key ttl fixedTtl bitmap ans =>
+    simp only [cstep]
+    by_cases hk : key = "" <;> simp [hk]
+  | del key => simp only [cstep, evict_stale]
+  | fam base order =>
+    simp only [cstep]
+    by_cases hb : base = ""
+    · simp [hb]
+    · simp only [hb, if_false]
+      have := foldl_evict_stale (fun k => decide (baseKey k = base)) order σ
+      simp only [decide_eq_true_eq] at this
+      exact this
+  | look key ig =>
+    rcases look_cases σ key ig with h1 | h1 | ⟨e, _, h1⟩
+    · rw [h1]
+    · rw [h1, evict_stale]
+    · rw [h1]
+  | jan order =>
+    simp only [cstep]
+    have := foldl_evict_stale (fun _ => true) order σ
+    simp only [if_true] at this
+    exact this
+  | sleep ns => rfl
+  | touch key =>
+    simp only [cstep]
+    cases alLookup key σ.cache <;> rfl
+
+theorem stale_of_no_work (ops : List COp) : ∀ σ : CState, (∀ op ∈ ops, op ≠ COp.work) →
+    σ.staleApplied = false → (crun σ ops).staleApplied = false := by
+  induction ops with
+  | nil => intro σ _ h; exact h
+  | cons op ops ih =>
+    intro σ hall hs
+    unfold crun
+    simp only [List.foldl_cons]
+    apply ih
+    · intro o ho; exact hall o (List.mem_cons_of_mem _ ho)
+    · rw [cstep_stale_of_not_work σ op (hall op (by simp))]; exact hs
+
+theorem work_nil (σ : CState) (hp : σ.pending = []) : cstep σ .work = σ := by
+  simp only [cstep, hp]
+
+theorem look_work_fresh (σ : CState) (hp : σ.pending = []) (key : String) (ig : Bool) :
+    (cstep (cstep σ (.look key ig)) .work).staleApplied = σ.staleApplied := by
+  rcases look_cases σ key ig with h1 | h1 | ⟨e, _, h1⟩
+  · rw [h1, work_nil σ hp]
+  · rw [h1, work_nil _ (by rw [evict_pending, hp]), evict_stale]
+  · rw [h1]
+    simp only [cstep, hp, List.nil_append, taskFresh, alLookup_insert, if_true, Entry.snap, decide_true,
+      Bool.not_true, Bool.or_false]
+
+theorem alLookup_some_of_mem_key {κ ν : Type} [DecidableEq κ] {k : κ} {v : ν} {l : List (κ × ν)} (h : (k, v) ∈ l) :
+    ∃ w, alLookup k l = some w := by
+  induction l with
+  | nil => simp at h
+  | cons p l ih =>
+    obtain ⟨a, x⟩ := p
+    simp only [alLookup]
+    by_cases ha : a = k
+    · exact ⟨x, by simp [ha]⟩
+    · simp only [ha, if_false]
+      rcases List.mem_cons.mp h with h1 | h1
+      · injection h1 with h1 _; exact absurd h1.symm ha
+      · exact ih h1
+
+/-- the `m=` flag the driver prints is a theorem whenever `s=0`. -/
+theorem CInv.mirrorOk_true {σ : CState} (h : CInv σ) (hs : σ.staleApplied = false) :
+    mirrorOk σ.cache σ.tk.K = true := by
+  unfold mirrorOk
+  simp only [Bool.and_eq_true, List.all_eq_true, beq_iff_eq, bne_iff_ne, ne_eq]
+  refine ⟨fun ip _ => h.kernel_eq_spec hs ip, ?_⟩
+  intro p hp
+  obtain ⟨ip, v⟩ := p
+  obtain ⟨w, hw⟩ := alLookup_some_of_mem_key hp
+  have := (h.cache_no_orphan hs ip w hw).1
+  unfold kernelVal
+  simp only [hw]
+  exact this
+
 end DaeVerif.C10
